@@ -212,3 +212,37 @@ Proof.
   cbn [call_builtin hex_name A map leqb]. cbn. rewrite i64_trunc_of_int by lia. rewrite Z.mod_small by lia. reflexivity.
 Qed.
 End B.
+
+(* ---- insert, contains, all / any ---- *)
+Lemma insert_length {A} (t s:list A) k : (k <= length t)%nat -> length (firstn k t ++ s ++ skipn k t) = (length t + length s)%nat.
+Proof. intros H. rewrite !app_length, firstn_length, skipn_length. lia. Qed.
+Lemma insert_then_copy {A} (t s:list A) k : (k <= length t)%nat -> firstn (length s) (skipn k (firstn k t ++ s ++ skipn k t)) = s.
+Proof.
+  intros H. rewrite skipn_app, firstn_length, Nat.min_l by exact H. rewrite Nat.sub_diag. cbn [skipn].
+  rewrite skipn_all2 by (rewrite firstn_length; lia). cbn [app]. rewrite firstn_app, Nat.sub_diag, firstn_all. cbn [firstn]. apply app_nil_r.
+Qed.
+Lemma insert_then_remove {A} (t s:list A) k : (k <= length t)%nat ->
+  firstn k (firstn k t ++ s ++ skipn k t) ++ skipn (k + length s) (firstn k t ++ s ++ skipn k t) = t.
+Proof.
+  intros H. rewrite firstn_app, firstn_length, Nat.min_l by exact H. rewrite Nat.sub_diag. cbn [firstn]. rewrite app_nil_r, firstn_firstn, Nat.min_id.
+  rewrite skipn_app, firstn_length, Nat.min_l by exact H. rewrite skipn_all2 by (rewrite firstn_length; lia). cbn [app].
+  replace (k + length s - k)%nat with (length s) by lia. rewrite skipn_app, Nat.sub_diag, skipn_all. cbn [skipn app]. apply firstn_skipn.
+Qed.
+Section B2.
+Variable off : nat.
+Hypothesis Hoff : (off <= 1)%nat.
+Notation call := (call_builtin off).
+Definition insert_name := A [105;110;115;101;114;116]%Z. Definition all_name := A [97;108;108]%Z. Definition any_name := A [97;110;121]%Z.
+(* insert(t, s, p) at the k-th position (p = k + first): the text with s put in before its k-th character; copy gives s back, the length adds up *)
+Theorem insert_builtin (t s:list N) k : (k <= length t)%nat -> (Z.of_nat k + 1 <= 2^52)%Z ->
+  call insert_name [VStr t; VStr s; IndexFacts.pos off k] = BOk (VStr (firstn k t ++ s ++ skipn k t)).
+Proof.
+  intros Hk Hb. unfold IndexFacts.pos. cbn [call_builtin insert_name A map leqb]. cbn. rewrite (IndexFacts.string_index_pos off Hoff k Hb).
+  replace (Z.of_nat (length t) <? Z.of_nat k)%Z with false by (symmetry; apply Z.ltb_ge; lia). rewrite Nat2Z.id. reflexivity.
+Qed.
+Theorem contains_array_builtin h n : call contains_name [VArr h; n] = BOk (VBool (existsb (fun v => veq v n) h)) /\
+  (existsb (fun v => veq v n) h = true <-> exists v, In v h /\ veq v n = true).
+Proof. split; [reflexivity | apply existsb_exists]. Qed.
+Theorem all_any_builtin ps : call all_name ps = BOk (VBool (forallb (fun v => veq v (VBool true)) (smart_vec ps))) /\ call any_name ps = BOk (VBool (existsb (fun v => veq v (VBool true)) (smart_vec ps))).
+Proof. split; reflexivity. Qed.
+End B2.
